@@ -74,6 +74,24 @@ fn drive(cx: &mut Ctx, mode: Mode, inline_opt: bool, label: &str, with_model: bo
                 v.sort();
             }
         }
+        // SABOTAGE (sanity test only, removed afterwards)
+        match std::env::var("HX_C36_SABOTAGE").ok().as_deref() {
+            Some("1") => {
+                // as if apply_pagination did not sort
+                if let (Mode::Dir, Op::ListTables(..), Ans::Names(v)) = (mode, &op, &mut a) {
+                    v.reverse();
+                }
+            }
+            Some("2") => {
+                // as if table_exists answered Ok for a name that was never created
+                if let (Op::TableExists(_), Ans::Fail(1)) = (&op, &a) {
+                    if label.starts_with("clean") {
+                        a = Ans::Done;
+                    }
+                }
+            }
+            _ => {}
+        }
         if let (Op::CreateEmptyTable(_) | Op::CreateTable(_), Ans::Loc(c, _, raw)) = (&op, &a) {
             if c.starts_with('#') && raw.len() >= 8 {
                 hashes.entry(raw[..8].to_string()).or_insert(k);
